@@ -349,8 +349,14 @@ func (os *offScen) judge() {
 	// premise of (e): the coordinator accepted the final attempts - no fault was injected, no transport
 	// error reached the client and no commit was refused after Close had been invoked
 	quiet := os.closeReturned && os.cl.lastFaultUs < os.closeInvokedUs && !os.gm.loading && lastTransportErrUs < os.closeInvokedUs
+	// (a refusal by a broker that is no longer the coordinator is not the coordinator refusing: the client is
+	// expected to look the coordinator up again, which costs one of the Retry.Max+1 final attempts)
 	for _, cr := range os.gm.commits {
 		if cr.e > os.closeInvokedE && !cr.accepted {
+			if cr.stale && os.c.Config.OffsetsRetryMax >= 1 {
+				os.r.probe("final-attempt-refused-by-former-coordinator")
+				continue
+			}
 			quiet = false
 		}
 	}
